@@ -29,6 +29,25 @@ def structural(res, stats, case, verdict):
         return {n for n, r in names.items() if isinstance(r, dict) and r.get("src") == src and src}
 
     ir = {op["id"]: op for op in rec.get("ir_final", [])}
+
+    def func_locals(n, inside=False, acc=None):
+        """names declared (or bound as parameters) inside function bodies"""
+        acc = set() if acc is None else acc
+        if isinstance(n, list):
+            for x in n:
+                func_locals(x, inside, acc)
+        elif isinstance(n, dict):
+            if n.get("k") == "Func":
+                acc.update(p["name"] for p in n.get("params", []))
+                func_locals(n.get("body"), True, acc)
+            else:
+                if inside and n.get("k") in ("Decl", "MemDecl"):
+                    acc.add(n.get("name"))
+                for v in n.values():
+                    if isinstance(v, (list, dict)):
+                        func_locals(v, inside, acc)
+        return acc
+    flocals = func_locals(rec.get("ast"))
     for out in verdict.get("outputs", []):
         nm, line = out["name"], out["line"]
         ref = names.get(nm) or {}
@@ -68,7 +87,11 @@ def structural(res, stats, case, verdict):
         if nm not in words:
             op = ir.get(src, {})
             if not (al & words):
-                if op.get("kind") == "IRArith" and op.get("op") == "+" and op.get("right") == 0:
+                if op.get("debug_label") in flocals and op.get("debug_label") != nm and len(anchors) == 1:
+                    res.known("F38", "a result a function returns from a named local keeps the local's name on its producer (the first label wins); only the anchor carries the declared name",
+                              example={"source": rec["source"], "output": nm, "description": desc})
+                    stats["finding:F38"] += 1
+                elif op.get("kind") == "IRArith" and op.get("op") == "+" and op.get("right") == 0:
                     res.known("F27", "the combinator of a projection 'e | \"t\"' is labelled with the operand's name instead of the declared name",
                               example={"source": rec["source"], "output": nm, "description": desc})
                     stats["finding:F27"] += 1
